@@ -14,6 +14,27 @@ ID = "C23"
 LEAN_MODULES = ["Ebv.Props.C23"]
 MODEL_MODULES = ["Ebv.Model.Parallel"]
 DRIVER = "Drivers/C23.lean"
+THEOREMS = [
+    "Ebv.C23.ethertypes_distinct", "Ebv.C23.single_installer",
+    "Ebv.C23.installed_while_running_refuted", "Ebv.C23.installed_while_running_stale_refuted",
+    "Ebv.C23.installed_while_running_partial",
+    "Ebv.C23.fmmu_windows_disjoint_refuted", "Ebv.C23.fmmu_windows_overflow_refuted",
+    "Ebv.C23.fmmu_windows_disjoint_partial", "Ebv.C23.ethertypes_distinct_fault_refuted",
+]
+TRUSTED = ["hand-written model Ebv.Parallel of ParallelEtherCat.run / LockFile / FMMULock, tied by exact correspondence of per-participant "
+           "operation traces, final shared state, first violating prefix of each clause and the Quiet hypothesis under explicit schedules",
+           "harness/vh/props/c23.py: emulated file system / bpf object / netlink layer and the thread-per-participant scheduler",
+           "ethertype range, bitmap size, slot count and window geometry regenerated into Ebv.Generated.Consts (probed on the real classes)"]
+ASSUMPTIONS = ["POSIX semantics as emulated: open('x')/O_EXCL atomic, rename(dir, dir) succeeds iff target absent or empty, rmdir iff empty, "
+               "lockf record locks per process, bpffs pin = name -> object, netlink IFLA_XDP_FD replaces / fd -1 detaches whatever is attached",
+               "one scheduling point per call that touches shared state; makedirs(exist_ok), connect, EtherXDP(), close, sleep and the second "
+               "os.open of the never-unlinked bitmap file commute with everything and are merged into the following operation; "
+               "shutil.rmtree is one step",
+               "a crashed participant = one that is not scheduled again (its record lock stays held; a real crash would release it)"]
+RULE = ("case = 2-4 participants (scripted randrange draws for ethertype and FMMU slot, number of get_fmmu_addr calls, optional attach fault), "
+        "optional pre-existing bitmap file (initialised with random bits / wrong length), explicit schedule of participant numbers: "
+        "the five witness schedules, a family of split points of the last-leaver race, random burst / fine-grained / session-boundary "
+        "schedules; a participant left unscheduled is a crash; non-trivial = at least two participants performed 5+ operations")
 IF = "ifc23"
 LOCKDIR = f"/run/lock/ebpf.{IF}.lock"
 PIN = f"/sys/fs/bpf/{IF}/programs"
@@ -173,6 +194,8 @@ class Sched:
 
     def gate(self):
         """called by a participant before an operation on shared state"""
+        if self.stop:
+            raise Stop()
         i = self.local.pid
         with self.cv:
             if self.stop:
@@ -397,10 +420,8 @@ class Machine:
     def os_open(self, path, flags, mode=0o777):
         k = self.kind(path)
         excl = bool(flags & _os.O_EXCL)
-        if k == "fm" and not excl:
-            node = self.w.lookup(path)       # never unlinked: cannot fail, no effect, no scheduling point
-            if node is None:
-                raise FileNotFoundError(errno.ENOENT, "no such file", path)
+        if k == "fm" and not excl and self.w.lookup(path) is not None:
+            node = self.w.lookup(path)       # exists and is never unlinked: cannot fail, no effect, no scheduling point
         else:
             self.s.gate()
             tok = f"{k}_open" if excl else f"{k}_reopen"
@@ -554,7 +575,7 @@ def drive(coro):
     raise AssertionError("participant suspended outside the emulated layer")
 
 
-def participant(m, pid, objs, info):
+def participant(m, pid, objs, info, cms):
     import ebpfcat.ebpfcat as eb
     s = m.s
     s.local.pid = pid
@@ -584,9 +605,16 @@ def participant(m, pid, objs, info):
                 pass
         m.phase[pid] += "/stopped"
     except BaseException as e:
-        m.phase[pid] = "failed"
+        if entered:      # what `async with` does when the body raises: run the exit path with the exception
+            try:
+                m.phase[pid] = "exit"
+                drive(cm.__aexit__(type(e), e, None))
+            except BaseException:
+                pass
+        m.phase[pid] = "failed" if "stopped" not in m.phase[pid] and not m.s.stop else m.phase[pid] + "/stopped"
         info[pid] = info.get(pid) or type(e).__name__
     finally:
+        cms[pid] = cm
         s.finish()
 
 
@@ -624,9 +652,9 @@ def run_impl(case):
     """returns (per-participant traces, final observation, list of observations after every prefix)"""
     m = Machine(case)
     n = len(case["cfgs"])
-    objs, info = {}, {}
+    objs, info, cms = {}, {}, {}
     with installed(m):
-        threads = [threading.Thread(target=participant, args=(m, pid, objs, info), daemon=True) for pid in range(n)]
+        threads = [threading.Thread(target=participant, args=(m, pid, objs, info, cms), daemon=True) for pid in range(n)]
         for t in threads:
             t.start()
         for pid in range(n):
@@ -641,6 +669,12 @@ def run_impl(case):
             t.join(30)
         if any(t.is_alive() for t in threads):
             raise RuntimeError("participant thread did not end")
+        for cm in cms.values():      # no generator of the real code may outlive the emulated layer
+            if cm is not None:
+                try:
+                    drive(cm.aclose())
+                except BaseException:
+                    pass
     return m, objs, info, obs
 
 
@@ -785,6 +819,14 @@ def gen(rng):
     sched = []
     mode = rng.random()
     total = rng.randrange(20, 40 * n)
+    if mode > 0.55:       # session boundary: one participant goes through a whole life cycle up to somewhere in its exit
+        p = rng.randrange(n)
+        k = rng.randrange(11, 24)
+        if mode > 0.8:    # a joiner arrives early and sits in its obj_get window
+            q = (p + 1) % n
+            sched += [p] * 3 + [q] * rng.randrange(5, 10)
+            k -= 3
+        sched += [p] * k
     while len(sched) < total:
         p = rng.randrange(n)
         k = 1 if mode < 0.3 else rng.choice([1, 1, 2, 3, 5, 8, 11, 12, 13, 14, 15, 20])
@@ -804,6 +846,14 @@ WITNESSES = {
                            "sched": [0] * 10 + [1] * 16 + [0] + [2] * 16, "fm0": None},
     # P0 asks for 1024 sync-group addresses: the last one lies in the window of process number 2 (P1)
     "fmmu-window-overflow": {"cfgs": [C(naddr=WINDOW_GROUPS), C(et=[12288], fm=[2])], "sched": [0] * 11 + [1] * 14, "fm0": None},
+    # P1 joins P0's session but its obj_get come too early; P0 runs and leaves (rmdir fails: P1's file); P1's clean-up empties the
+    # lock dir, dispatcher and pin stay.  P2 renames over the empty dir, P3 joins with the OLD table and runs, P2 removes the old pin.
+    # P0's netlink attach fails: its `except` path rmtree()s the lock dir together with P1's member file (ethertype 12288);
+    # P2 starts a new session, P1's second obj_get succeeds and it runs; P3 draws 12288 and gets it
+    "installer-fault-rmtree": {"cfgs": [C(fails=True), C(et=[12288]), C(), C(et=[12288], fm=[3])],
+                               "sched": [0] * 5 + [1] * 7 + [0] * 2 + [2] * 7 + [1] * 5 + [3] * 14, "fm0": None},
+    "stale-programs-file": {"cfgs": [C(), C(et=[12288]), C(), C(et=[12288], fm=[3])],
+                            "sched": [0] * 3 + [1] * 8 + [0] * 11 + [1] + [2] * 3 + [3] * 14 + [2] * 2, "fm0": None},
 }
 
 
@@ -843,3 +893,18 @@ def run(ctx):
 def replay(ctx, case):
     line, v, pr, m = evaluate(ctx, case)
     return {"result": line, "violations": v, "classes": sorted(k for k, b in pr.items() if b)}
+
+
+LEVEL_TEXT = ("Lean 4 proof over a hand-written model of ParallelEtherCat.run with LockFile/FMMULock (one step per file-system / bpf / netlink "
+              "operation, explicit schedules, any number of participants, crash = not scheduled again): ethertypes of members are pairwise "
+              "distinct and at most one participant is in the install section (invariant proofs, no injected fault); installed-while-running "
+              "and FMMU-window disjointness are REFUTED on concrete witness schedules (last-leaver/new-starter race, stale programs file after "
+              "a joiner's clean-up, create-then-initialise window of the bitmap, unbounded get_next_addr) and proved for the remainder "
+              "(no start-section operation while a last leaver is between rmdir and remove(programs) and no rename succeeding over an old "
+              "programs file => installed; bitmap file already initialised and at most 1023 get_fmmu_addr calls => windows disjoint). Tie: "
+              "the real coroutines of several participant objects driven in one process over an emulated fs/bpf/netlink layer under the same "
+              "schedules, exact equality of traces, final state, first violating prefixes and the theorem's schedule hypothesis.")
+LEVEL_NOTE = ("partial: trusted are the Lean kernel + standard axioms, the hand transcription (validated by differential runs, not verified), "
+              "the emulated POSIX/bpffs/netlink semantics and real process scheduling; five defect classes are known findings")
+TECHNIQUE = "Lean 4 invariant proofs over all schedules + kernel-decided refutations on witness schedules + differential schedule replay of the real code"
+DESIGN_REF = "§4 C23"
